@@ -1,7 +1,7 @@
 CONSTANTS
   Driver = "iour"
-  Shapes <- ShapesQuick
-  MaxSteps = 7
+  Shapes <- ShapesLive
+  MaxSteps = 0
   MaxCancel = 2
   MaxFeed = 2
   Eager = FALSE
@@ -10,5 +10,6 @@ CONSTANTS
   MutPersDropsCancel = FALSE
   MutNoDropCancel = FALSE
   MutNoWaker = FALSE
-SPECIFICATION Spec
+SPECIFICATION FairSpec
 INVARIANTS TypeOK ExtInnermost RegSound CancelOnlyVisible BadPersOnlyVisible FailFastPrompt Fused TryTake DropCancels PanicOnlyKnown OwnResult
+PROPERTIES CancelResolves CompletionSeen FailFastResolves
